@@ -34,7 +34,10 @@ ASSUMPTIONS = c01.ASSUMPTIONS + [
 
 @st.composite
 def corpus_case(draw, tier="quick"):
-    n = 20 if tier == "quick" else 40
+    # 20 entries per corpus in both tiers: a 40-entry corpus exceeds Hypothesis' choice-sequence budget and degenerates into
+    # the all-minimal case (seen in the first thorough run: 784 of 800 entries were the same trivial call); the thorough tier
+    # runs more corpora and more child interpreters instead
+    n = 20
     entries = []
     while len(entries) < n:
         mode = draw(st.integers(0, 9))
@@ -201,7 +204,7 @@ def make_strategy(tier, k):
 
 
 def worker(k, n, tier, seed, known_buckets, extra):
-    fr = standard_worker(PROP, make_strategy(tier, k), evaluate, k, n, tier, seed, known_buckets, quick_examples=3 * n - 1, thorough_examples=30 * n, shrink_quick=60.0, shrink_thorough=300.0)
+    fr = standard_worker(PROP, make_strategy(tier, k), evaluate, k, n, tier, seed, known_buckets, quick_examples=3 * n - 1, thorough_examples=16 * n, shrink_quick=60.0, shrink_thorough=300.0)
     # evaluations = corpus entries executed, not corpora
     fr["extra"]["corpora"] = fr["evaluations"]
     fr["evaluations"] = fr["hist"].get("entries", 0)
